@@ -6,7 +6,8 @@ from automat import MethodicalMachine
 from nacl import utils
 from nacl.exceptions import CryptoError
 from nacl.secret import SecretBox
-from spake2 import SPAKE2_Symmetric
+from spake2 import SPAKE2_Symmetric, SPAKEError
+from spake2.ed25519_basic import NotOnCurve
 from zope.interface import implementer
 
 from . import _interfaces
@@ -166,11 +167,17 @@ class _SortedKey:
     # from Ordering
     def got_pake(self, body):
         assert isinstance(body, bytes), type(body)
-        payload = bytes_to_dict(body)
-        if "pake_v1" in payload:
-            self.got_pake_good(hexstr_to_bytes(payload["pake_v1"]))
-        else:
+        try:
+            payload = bytes_to_dict(body)
+            msg2 = hexstr_to_bytes(payload["pake_v1"])
+        except (AssertionError, KeyError, TypeError, ValueError,
+                RecursionError):
+            # not JSON (or absurdly nested), not an object, no "pake_v1", or
+            # not a hex string:
+            # whoever sent this does not have our code
             self.got_pake_bad()
+            return
+        self.got_pake_good(msg2)
 
     @m.input()
     def got_pake_good(self, msg2):
@@ -197,7 +204,12 @@ class _SortedKey:
     def compute_key(self, msg2):
         assert isinstance(msg2, bytes)
         with self._timing.add("pake2", waiting="crypto"):
-            key = self._sp.finish(msg2)
+            try:
+                key = self._sp.finish(msg2)
+            except (AssertionError, ValueError, SPAKEError, NotOnCurve):
+                # malformed or reflected element: same as a wrong code
+                self._B.scared()
+                return
         # TODO: make B.got_key() an eventual send, since it will fire the
         # user/application-layer get_unverified_key() Deferred, and if that
         # calls back into other wormhole APIs, bad things will happen
